@@ -504,6 +504,14 @@ pub fn run(tier: &Tier) -> i32 {
     variants.push(("last line without newline".into(), plain.trim_end().to_string()));
     variants.push(("comment on the last line without newline".into(), format!("{} ; end", plain.trim_end())));
     variants.push(("comment containing quotes and keywords".into(), lines.iter().map(|l| format!("{} ; \"mov ax, 1\" hlt print reg", l)).collect::<Vec<_>>().join("\n") + "\n"));
+    // what a comment says is irrelevant: every text of a small alphabet of troublesome fragments (unbalanced and
+    // balanced quotes, further semicolons, brackets, braces, macro arrows, keywords, a backslash, non-ASCII) as the
+    // comment of every line, of the first line only (plain comments after it), and of every second line
+    for t in ["\"", "\"\"", "\";", ";;", "'", "2\" wide", "a\"b;c", "; \"", "\\", "->", "<-", "{", "}", "(", "[", "macro x(a) -> <-", "def f {", "start:", "db \"", "\u{e9}\"\u{20ac}"] {
+        variants.push((format!("comment {:?} on every line", t), lines.iter().map(|l| format!("{} ;{}", l, t)).collect::<Vec<_>>().join("\n") + "\n"));
+        variants.push((format!("comment {:?} on the first line, plain comments after it", t), lines.iter().enumerate().map(|(k, l)| if k == 0 { format!("{} ; {}", l, t) } else { format!("{} ; plain", l) }).collect::<Vec<_>>().join("\n") + "\n"));
+        variants.push((format!("comment {:?} on every second line", t), lines.iter().enumerate().map(|(k, l)| if k % 2 == 1 { format!("{} ; {}", l, t) } else { l.to_string() }).collect::<Vec<_>>().join("\n") + "\n"));
+    }
     // a comment between the tokens of one instruction
     variants.push(("comment between tokens".into(), plain.replace("mov ax, 7", "mov ax, ; seven\n7")));
     let none = std::collections::HashMap::new();
@@ -550,7 +558,7 @@ pub fn run(tier: &Tier) -> i32 {
     c.states.fetch_add(respellings.load(Ordering::Relaxed), Ordering::Relaxed);
     let mut cov = Coverage::default();
     cov.exhaustive = true;
-    cov.rule = "for every shape of the syntax.md catalog: (a) the line the real Preprocessor emits, executed by the real Interpreter on two distinguishing machine states, has the effect the reference computes for the AST instruction (same operation, operand roles, constants); (b) EVERY single spelling deviation of the canonical rendering - each keyword token in upper case, each constant in 0x / 0X / 0b / negative decimal / leading zeros / OFFSET of a label with that offset, each gap as tab / newline / several spaces / blank lines / CRLF / an extra space - must assemble to the identical instruction list; (c) one emitted instruction per source instruction and all ordered triples of 8 distinguishable instructions keep order; (d) labels differing only in case are different labels; (e) 8 comment placements through the CLI binary behave like the uncommented program; (f) EVERY constant of a class in every radix: all 65536 word immediates (two instructions), all 256 byte immediates, all 65536 direct addresses (two instructions) and all 65536 displacements, spelled in decimal, 0x, 0X, 0b, with leading zeros and as the negative decimal with the same bit pattern: the emitted instruction equals the decimal spelling's and, executed by the real Interpreter, carries exactly that number".into();
+    cov.rule = "for every shape of the syntax.md catalog: (a) the line the real Preprocessor emits, executed by the real Interpreter on two distinguishing machine states, has the effect the reference computes for the AST instruction (same operation, operand roles, constants); (b) EVERY single spelling deviation of the canonical rendering - each keyword token in upper case, each constant in 0x / 0X / 0b / negative decimal / leading zeros / OFFSET of a label with that offset, each gap as tab / newline / several spaces / blank lines / CRLF / an extra space - must assemble to the identical instruction list; (c) one emitted instruction per source instruction and all ordered triples of 8 distinguishable instructions keep order; (d) labels differing only in case are different labels; (e) 8 comment placements and 20 troublesome comment texts (unbalanced quotes, semicolons, brackets, arrows, keywords, non-ASCII) in 3 placements each through the CLI binary behave like the uncommented program; (f) EVERY constant of a class in every radix: all 65536 word immediates (two instructions), all 256 byte immediates, all 65536 direct addresses (two instructions) and all 65536 displacements, spelled in decimal, 0x, 0X, 0b, with leading zeros and as the negative decimal with the same bit pattern: the emitted instruction equals the decimal spelling's and, executed by the real Interpreter, carries exactly that number".into();
     cov.bounds = json!({"catalog_shapes": cat.len(), "respellings": respellings.load(Ordering::Relaxed), "semantic_executions": semantic.load(Ordering::Relaxed), "triples": triples.len(), "constant_spellings": const_spellings, "constant_executions": const_execs, "comment_variants": variants.len(), "tier": tier.name()});
     cov.assumptions = common_assumptions();
     cov.cli_runs = CLI_RUNS.load(Ordering::Relaxed);
